@@ -41,10 +41,107 @@ def impl_totals(af, t, rng_vals):
             s2.arch.total_area, s2.arch.total_leak_power)
 
 
+def array_stream(ck, af, rng, n):
+    """oracle-only streams (outside the Coq model): (a) architectures with !Array nodes whose children are independent of each other;
+    (b) re-costing after a fanout was changed on the costed spec"""
+    A = af["arch"]
+
+    def mem(name, fo, area, leak):
+        return A.Memory(name=name, size=1000, spatial=[{"name": "d" + name, "fanout": fo}] if fo != 1 else [], area=area, leak_power=leak,
+                        actions=[{"name": "read", "energy": 1, "throughput": 1}, {"name": "write", "energy": 1, "throughput": 1}])
+    for _ in range(n):
+        nodes, expect, per = [], {}, {}
+        cur, cnt = 1, 0
+        plan = [rng.choice(["leaf", "leaf", "array", "cont"]) for _ in range(rng.randint(2, 6))]
+        if rng.random() < 0.6 and "array" not in plan:
+            plan[rng.randrange(len(plan))] = "array"
+        desc = []
+        for kind in plan:
+            if kind == "leaf":
+                fo, a, l = rng.choice([1, 1, 2, 3]), rng.randint(0, 9), rng.randint(0, 5)
+                nm = f"N{cnt}"; cnt += 1
+                nodes.append(mem(nm, fo, a, l)); expect[nm] = cur * fo; per[nm] = (a, l); cur *= fo
+                desc.append(("mem", nm, fo))
+            elif kind == "cont":
+                fo = rng.choice([1, 2, 3, 4])
+                nm = f"N{cnt}"; cnt += 1
+                nodes.append(A.Container(name=nm, spatial=[{"name": "d" + nm, "fanout": fo}] if fo != 1 else [])); cur *= fo
+                desc.append(("container", nm, fo))
+            else:
+                fa = rng.choice([1, 2, 2, 3, 4])
+                nm = f"N{cnt}"; cnt += 1
+                cur *= fa
+                kids, kd = [], []
+                for _k in range(rng.randint(1, 4)):
+                    fo, a, l = rng.choice([1, 2, 2, 3]), rng.randint(1, 9), rng.randint(0, 5)
+                    kn = f"N{cnt}"; cnt += 1
+                    kids.append(mem(kn, fo, a, l)); expect[kn] = cur * fo; per[kn] = (a, l)
+                    kd.append(("mem", kn, fo))
+                nodes.append(A.Array(name=nm, nodes=kids, spatial=[{"name": "d" + nm, "fanout": fa}] if fa != 1 else []))
+                desc.append(("array", nm, fa, kd))
+        fo = rng.choice([1, 2, 3])
+        nodes.append(A.Compute(name="MAC", spatial=[{"name": "dm", "fanout": fo}] if fo != 1 else [], area=1, leak_power=1,
+                               actions=[{"name": "compute", "energy": 1, "throughput": 1}]))
+        expect["MAC"] = cur * fo; per["MAC"] = (1, 1)
+        desc.append(("compute", "MAC", fo))
+        has_array = any(d[0] == "array" for d in desc)
+        ck.case(("array-stream", json.dumps(desc)), nontrivial=has_array, sample={"array_stream": desc} if has_array else None)
+        ck.count("array_stream_cases")
+        try:
+            spec = af["Spec"](arch=A.Arch(nodes=nodes), workload=gen_arch.simple_workload(af))
+            s2 = spec.calculate_component_costs()
+            area, leak = dict(s2.arch.per_component_total_area), dict(s2.arch.per_component_total_leak_power)
+        except Exception as e:  # noqa
+            ck.failing_input({"arch": desc, "why": f"exception {type(e).__name__}: {e}"}, what="calculate_component_costs raised on an architecture with an Array")
+            continue
+        bad = {k: (area.get(k), per[k][0] * n_, leak.get(k), per[k][1] * n_) for k, n_ in expect.items()
+               if area.get(k) != per[k][0] * n_ or leak.get(k) != per[k][1] * n_}
+        if bad:
+            ck.failing_input({"arch": desc, "component: (total_area, expected, total_leak, expected)": bad},
+                             what="component total != per-instance value x number of instances (architecture with an Array)")
+            continue
+        # (b) change one fanout on the costed spec and cost it again: the totals must follow the new instance counts
+        cands = [d for d in desc if d[0] in ("mem", "container", "compute")]
+        d = rng.choice(cands)
+        newf = rng.choice([f for f in (2, 3, 5, 7) if f != d[2]])
+        node = s2.arch.find(d[1])
+        try:
+            if node.spatial:
+                node.spatial[0].fanout = newf
+            else:
+                continue
+            s3 = s2.calculate_component_costs()
+        except Exception as e:  # noqa
+            ck.failing_input({"arch": desc, "changed": d[1], "why": f"exception {type(e).__name__}: {e}"}, what="re-costing after a fanout change raised")
+            continue
+        # recompute expectations with the new fanout
+        cur, exp2 = 1, {}
+        for dd in desc:
+            f = newf if dd[1] == d[1] else dd[2]
+            if dd[0] in ("mem", "compute"):
+                exp2[dd[1]] = cur * f
+                if dd[0] == "mem":
+                    cur *= f
+            elif dd[0] == "container":
+                cur *= f
+            else:
+                cur *= f
+                for kd in dd[3]:
+                    exp2[kd[1]] = cur * (newf if kd[1] == d[1] else kd[2])
+        area3, leak3 = dict(s3.arch.per_component_total_area), dict(s3.arch.per_component_total_leak_power)
+        bad = {k: (area3.get(k), per[k][0] * n_, leak3.get(k), per[k][1] * n_) for k, n_ in exp2.items()
+               if area3.get(k) != per[k][0] * n_ or leak3.get(k) != per[k][1] * n_}
+        ck.count("recost_after_fanout_change_cases")
+        if bad or s3.arch.total_area != sum(area3.values()):
+            ck.failing_input({"arch": desc, "changed": d[1], "new_fanout": newf, "component: (total_area, expected, total_leak, expected)": bad},
+                             what="after changing a fanout on the costed spec and costing again, totals do not match the new instance counts")
+
+
 def run(ck):
     af = gen_arch.load()
     ck.prove()
     rng = ck.rng("trees")
+    array_stream(ck, af, ck.rng("arrays"), ck.n(80, 1500))
     exprs, keys = [], []
     for _ in range(ck.n(150, 4000)):
         t = gen_arch.random_tree(rng)
@@ -87,7 +184,8 @@ def run(ck):
     return ck.finish(
         rule="random trees with fanouts 1-5 on memories, tolls, containers and computes at any position (forks, nested hierarchies), "
              "random integer per-instance area and leak; per_component_total_area / _leak_power / total_area / total_leak_power checked; "
-             "non-trivial = at least two nodes with fanout > 1",
+             "non-trivial = at least two nodes with fanout > 1; plus two oracle-only streams outside the Coq model: architectures with !Array nodes (children independent of each other), "
+             "and re-costing after one fanout was changed on the costed spec",
         trusted=TRUSTED,
         extra={"source_fingerprint": [common.fingerprint("accelforge/frontend/spec.py", ["Spec"]),
                                       common.fingerprint("accelforge/frontend/arch/structure.py", ["ArchNode"])]})
